@@ -12,3 +12,6 @@ def check(rep, tier):
     rep.run(programs_exact.run_zero, rep)
     from contracts import guards
     rep.run(guards.run_nograd_values, rep, tier)
+    rep.run(core_rules.run, rep, tier, parts=("defjvp",))
+    from contracts import value_transparency
+    rep.run(value_transparency.run, rep, tier)
